@@ -31,7 +31,8 @@ EuclidOK(e) ==
    /\ ("prism_of" \in DOMAIN e => Euclidean2D(e.prism_of) /\ IsCoverOf(S, Prism(e.prism_of)) /\ e.verdict = "yes")
    /\ (e.verdict = "yes" => CertOK(e.cert, S))
    /\ \A k \in 1..Len(e.variants) : LET w == e.variants[k] IN
-         /\ "panic" \notin DOMAIN w /\ w.verdict \in Classes3
+         /\ "panic" \notin DOMAIN w
+         /\ (w.how = "dual" => w.sym = Dual(S))                           \* the relative really is the dual (derived::dual) /\ w.verdict \in Classes3
          /\ IF w.how = "cover" THEN ~({w.verdict, e.verdict} = {"yes", "no"})           \* never contradictory along covers
             ELSE w.verdict = e.verdict                                                  \* renumbering, dual
 Next == /\ l <= Len(Rec)
